@@ -4,10 +4,13 @@ import (
 	"errors"
 	"fmt"
 	"io/fs"
+	"net/http"
+	"net/http/httptest"
 	"os"
 	"path/filepath"
 	"sort"
 	"strings"
+	"sync"
 	"testing"
 
 	"github.com/safing/portbase/log"
@@ -49,13 +52,30 @@ type sut struct {
 	idxAmbiguities int
 }
 
+// downloads: a loopback update server that has every file. An online registry fetches a selected version that is not
+// on disk from it (GetFile); the file then exists, the version is in use, and a later scan lists it as available.
+var (
+	downloadOnce sync.Once
+	downloadURL  string
+)
+
+func updateServer() string {
+	downloadOnce.Do(func() {
+		srv := httptest.NewServer(http.HandlerFunc(func(w http.ResponseWriter, r *http.Request) {
+			_, _ = w.Write([]byte("c19 download of " + r.URL.Path + "\n"))
+		}))
+		downloadURL = srv.URL + "/"
+	})
+	return downloadURL
+}
+
 func newSut(t fataler, f mFlags) *sut {
 	dir, err := os.MkdirTemp("/dev/shm", "c19-")
 	if err != nil {
 		t.Fatalf("harness: MkdirTemp: %v", err)
 	}
 	s := &sut{t: t, dir: filepath.Join(dir, "storage"), m: newModel(), indexes: map[*mIndex]*updater.Index{}, files: map[string][2]string{}, branchesSeen: map[string]bool{}}
-	s.reg = &updater.ResourceRegistry{Name: "c19", Online: f.online, DevMode: f.devMode, UsePreReleases: f.usePre}
+	s.reg = &updater.ResourceRegistry{Name: "c19", Online: f.online, DevMode: f.devMode, UsePreReleases: f.usePre, UpdateURLs: []string{updateServer()}}
 	s.m.flags = f
 	if err := s.reg.Initialize(utils.NewDirStructure(s.dir, 0o755)); err != nil {
 		t.Fatalf("harness: Initialize: %v", err)
@@ -355,6 +375,23 @@ func (s *sut) getFile(id string) {
 		s.expectSelection("GetFile (first selection)", res, exp[id].SelectedVersion)
 	}
 	sel := res.selected
+	if !sel.available && s.m.flags.online {
+		// the registry downloads the selected version from the update server
+		if err != nil {
+			s.failf("GetFile(%q) failed (%v) although the registry is online and the update server has every file", id, err)
+		}
+		if f.Version() != sel.num {
+			s.failf("GetFile(%q) handed out version %s, the selected version is %s", id, f.Version(), sel)
+		}
+		want := s.storagePath(id, sel.num)
+		if f.Path() != want || !fileExists(want) {
+			s.failf("GetFile(%q) downloaded the selected version %s but %s does not exist (Path() = %s)", id, sel, want, f.Path())
+		}
+		s.files[want] = [2]string{id, sel.num}
+		res.active = sel
+		s.class("getfile_downloaded")
+		return
+	}
 	if !sel.available {
 		if err == nil {
 			s.failf("GetFile(%q) returned version %s although the selected version %s is not available locally and the registry is offline", id, f.Version(), sel)
@@ -459,8 +496,9 @@ func (s *sut) purge(keep int) {
 					furtherWithFileAfter++
 				}
 			}
-			if after[p] && listed[v.num] == nil {
-				// "remove entries of deleted files": an entry whose file was kept stays.
+			if after[p] && listed[v.num] == nil && v.available {
+				// "remove entries of deleted files": an entry whose file was kept stays. (Only for files the registry
+				// knows of: a downloaded file is not listed as available before the next scan, its entry may go.)
 				s.failf("Purge(%d): version %s of %s is no longer listed although its file %s was kept", keep, v, id, p)
 			}
 			if deleted[p] {
@@ -597,7 +635,7 @@ func genFlags(t *rapid.T) mFlags {
 // will be handed out is available locally.
 func (s *sut) canGetFile(id string) bool {
 	res := s.m.resources[id]
-	if res == nil || !s.m.flags.online {
+	if res == nil || !s.m.flags.online || downloadsEnabled {
 		return true
 	}
 	if res.selected != nil {
@@ -606,6 +644,9 @@ func (s *sut) canGetFile(id string) bool {
 	a, b, _ := s.modelSelect(res)
 	return a != nil && a.available && b.available
 }
+
+// downloadsEnabled: GetFile may be called when it will download (the loopback update server answers at once).
+var downloadsEnabled = true
 
 func TestPropRegistryHistory(t *testing.T) {
 	rapid.Check(t, func(t *rapid.T) {
